@@ -1098,7 +1098,17 @@ pub fn special_case_builtin(
                 .and_then(|generics| generics.first().cloned())
                 .expect("mk_cons should have (exactly) one type parameter");
 
-            if let [head, tail] = &args[..] {
+            if count == 0 {
+                assert!(args.is_empty());
+
+                for arg_index in 0..func.arity() {
+                    let temp_var = format!("__item_index_{arg_index}");
+
+                    args.push(Term::var(temp_var))
+                }
+            }
+
+            let mut term = if let [head, tail] = &args[..] {
                 Term::mk_cons()
                     .apply(if arg_type.is_pair() {
                         head.clone()
@@ -1108,7 +1118,16 @@ pub fn special_case_builtin(
                     .apply(tail.clone())
             } else {
                 unreachable!("mk_cons has two arguments.");
+            };
+
+            if count == 0 {
+                for arg_index in (0..func.arity()).rev() {
+                    let temp_var = format!("__item_index_{arg_index}");
+                    term = term.lambda(temp_var);
+                }
             }
+
+            term
         }
 
         DefaultFunction::ChooseUnit
